@@ -78,7 +78,11 @@ def refused(K=2):
             it = EnumItem(None)
             return (lambda: it.sql), ex.AttributeMissingError
         if case == 'index_no_table':
-            ix = Index([free])
+            # never attached, or attached and removed again; a primary-key index is refused like any other
+            ix = Index([t1.columns[0]] if a['p_edit'] else [free], pk=a['p_inline'])
+            if a['p_edit']:
+                t1.add_index(ix)
+                t1.delete_index(ix)
             return (lambda: ix.sql), ex.AttributeMissingError
         if case == 'index_no_subjects':
             ix = Index([t1.columns[0]])
